@@ -1,0 +1,128 @@
+//go:build verif
+
+// Contracts for contract-based deductive verification (govc, /verif).
+// This file contains comments only; it adds no code to the package.
+
+package routetab
+
+//@ # ---- assumed: addresses, keys, the path map -------------------------------------------------
+//@ opaque github.com/gauss-project/aurorafs/pkg/boson.Address as Addr
+//@ extern func (github.com/gauss-project/aurorafs/pkg/boson.Address).Equal
+//@   ensures result == (a == b)
+//@   assigns nothing
+//@ extern func (github.com/gauss-project/aurorafs/pkg/boson.Address).MemberOf
+//@   ensures result <==> (exists i :: 0 <= i && i < len(addrs) && addrs[i] == a)
+//@   assigns nothing
+//@ # key of a target in the route map (a function of the address)
+//@ spec func tkey(a boson.Address) common.Hash
+//@ func getTargetKey
+//@   trusted
+//@   ensures result == tkey(target)
+//@   assigns nothing
+//@ # key and parsed items of a path: one address per wire item, in order
+//@ spec func pathHash(ref int) common.Hash
+//@ func generatePathItems
+//@   trusted
+//@   ensures len(items) == len(paths)
+//@   assigns nothing
+//@ func verifyPath
+//@   inline
+//@ # the in-memory path map (sync.Map): Load answers with a *Path or nothing
+//@ extern func (*sync.Map).Load
+//@   dyntype value *routetab.Path
+//@   ensures ok ==> dyn(value) != nil
+//@   assigns nothing
+//@ extern func (*sync.Map).Store
+//@   assigns nothing
+//@ extern func (*sync.Map).Delete
+//@   assigns nothing
+
+//@ # the state store, seen from the route table: a write is counted (ghost), so that "a change of
+//@ # the in-memory routes of a target reaches the store" can be a postcondition
+//@ ghost storeWrites int
+//@ extern func (github.com/gauss-project/aurorafs/pkg/storage.StateStorer).Put
+//@   assigns ghost storeWrites
+//@   ensures storeWrites == old(storeWrites) + 1
+//@ extern func (github.com/gauss-project/aurorafs/pkg/storage.StateStorer).Delete
+//@   assigns ghost storeWrites
+//@   ensures storeWrites == old(storeWrites) + 1
+
+//@ # IterateTarget calls fn for the items before the last hop, and does nothing else
+//@ func (*Table).IterateTarget
+//@   trusted
+//@   iterates fn with (exists k :: 0 <= k && k <= len(items) - 2 && $target == items[k])
+//@   assigns nothing
+
+//@ # ---- representation invariant of the route map ----------------------------------------------
+//@ # at most NeighborAlpha routes per target
+//@ spec func routesBounded(t *Table) bool = t.routes != nil && NeighborAlpha >= 1 && forall k common.Hash :: present(t.routes, k) ==> len(t.routes[k]) <= int(NeighborAlpha)
+
+//@ func existRoute
+//@   property C27
+//@   ensures result <==> (exists i :: 0 <= i && i < len(routes) && routes[i].PathKey == route.PathKey && routes[i].Neighbor == route.Neighbor)
+//@   assigns nothing
+//@   loop 1 invariant 0 - 1 <= rangeindex && rangeindex < len(routes)
+//@   loop 1 invariant forall k :: 0 <= k && k <= rangeindex ==> !(routes[k].PathKey == route.PathKey && routes[k].Neighbor == route.Neighbor)
+
+//@ # the per-target step of SavePath
+//@ func (*Table).SavePath$1
+//@   property C27
+//@   requires t != nil && t.store != nil
+//@   iterinv bounded: routesBounded(t)
+//@   ensures change-is-persisted: t.routes[tkey(target)] != old(t.routes[tkey(target)]) ==> storeWrites > old(storeWrites)
+//@   ensures target-has-the-route-first: present(t.routes, tkey(target)) && len(t.routes[tkey(target)]) >= 1 && (old(!present(t.routes, tkey(target))) ==> len(t.routes[tkey(target)]) == 1)
+//@   ensures other-targets-untouched: forall k common.Hash :: k != tkey(target) ==> (present(t.routes, k) <==> old(present(t.routes, k))) && t.routes[k] == old(t.routes[k])
+
+//@ func (*Table).SavePath
+//@   property C27
+//@   requires t != nil && t.store != nil && p != nil && routesBounded(t)
+//@   ensures bounded-after: routesBounded(t)
+//@   ensures short-paths-ignored: len(p.Items) < 2 ==> forall k common.Hash :: (present(t.routes, k) <==> old(present(t.routes, k))) && t.routes[k] == old(t.routes[k])
+
+//@ # the per-target step of Delete: no route of the target refers to the deleted path afterwards
+//@ func (*Table).Delete$1
+//@   property C27
+//@   requires t != nil && t.store != nil
+//@   iterinv bounded: routesBounded(t)
+//@   ensures change-is-persisted: t.routes[tkey(target)] != old(t.routes[tkey(target)]) ==> storeWrites > old(storeWrites)
+//@   ensures no-route-to-the-deleted-path: present(t.routes, tkey(target)) ==> forall i :: 0 <= i && i < len(t.routes[tkey(target)]) ==> t.routes[tkey(target)][i].PathKey != pathKey
+//@   ensures other-targets-untouched: forall k common.Hash :: k != tkey(target) ==> (present(t.routes, k) <==> old(present(t.routes, k))) && t.routes[k] == old(t.routes[k])
+//@   loop 1 invariant 0 - 1 <= rangeindex && rangeindex < len(routes)
+//@   loop 1 invariant len(routesNow) <= rangeindex + 1 && forall k :: 0 <= k && k < len(routesNow) ==> routesNow[k].PathKey != pathKey
+//@   loop 1 invariant len(routesNow) == rangeindex + 1 ==> forall k :: 0 <= k && k <= rangeindex ==> routes[k].PathKey != pathKey
+
+//@ func convItemsToBytes
+//@   trusted
+//@   ensures len(paths) == len(items)
+//@   assigns nothing
+
+//@ func (*Table).Delete
+//@   property C27
+//@   requires t != nil && t.store != nil && path != nil && routesBounded(t)
+//@   ensures bounded-after: routesBounded(t)
+
+//@ # next hops: distinct, none skipped, each the neighbour of a route of the target
+//@ spec func strOf(a boson.Address) string = pure("(github.com/gauss-project/aurorafs/pkg/boson.Address).String", a)
+//@ func (*Table).GetNextHop
+//@   property C27
+//@   requires t != nil && routesBounded(t)
+//@   ensures none-skipped: forall i :: 0 <= i && i < len(next) ==> !(exists j :: 0 <= j && j < len(skips) && skips[j] == next[i])
+//@   ensures each-is-a-route-neighbour: forall i :: 0 <= i && i < len(next) ==> (exists r :: 0 <= r && r < len(t.routes[tkey(target)]) && t.routes[tkey(target)][r].Neighbor == next[i])
+//@   ensures distinct: forall i, j :: 0 <= i && i < j && j < len(next) ==> next[i] != next[j]
+//@   ensures unknown-target-no-hops: !present(t.routes, tkey(target)) ==> len(next) == 0
+//@   ensures table-untouched: forall k common.Hash :: (present(t.routes, k) <==> old(present(t.routes, k))) && t.routes[k] == old(t.routes[k])
+//@   loop 1 invariant 0 - 1 <= rangeindex && rangeindex < len(routes) && list != nil
+//@   loop 1 invariant forall k string :: present(list, k) ==> strOf(list[k]) == k && !(exists j :: 0 <= j && j < len(skips) && skips[j] == list[k]) && (exists r :: 0 <= r && r <= rangeindex && routes[r].Neighbor == list[k])
+//@   loop 2 invariant forall k string :: present(list, k) ==> strOf(list[k]) == k && !(exists j :: 0 <= j && j < len(skips) && skips[j] == list[k]) && (exists r :: 0 <= r && r < len(routes) && routes[r].Neighbor == list[k])
+//@   loop 2 invariant forall j :: 0 <= j && j < len(next) ==> visited(strOf(next[j])) && present(list, strOf(next[j])) && list[strOf(next[j])] == next[j]
+//@   loop 2 invariant forall i, j :: 0 <= i && i < j && j < len(next) ==> next[i] != next[j]
+//@   loop 2 invariant cap(next) == 0 || freshpre(next)
+//@   loop 2 assigns region(next)
+
+//@ func (*Table).Get
+//@   property C27
+//@   requires t != nil && routesBounded(t)
+//@   ensures at-most-alpha-paths: result1 == nil ==> 1 <= len(result0) && len(result0) <= int(NeighborAlpha)
+//@   ensures unknown-target: !present(t.routes, tkey(target)) ==> result1 != nil
+//@   ensures table-untouched: forall k common.Hash :: (present(t.routes, k) <==> old(present(t.routes, k))) && t.routes[k] == old(t.routes[k])
+//@   loop 1 invariant 0 - 1 <= rangeindex && rangeindex < len(routes) && len(paths) <= rangeindex + 1
